@@ -29,7 +29,8 @@ use radicle::cob::identity::{self, Action, Identity, Verdict};
 use radicle::cob::store::Cob;
 use radicle::cob::{self, Embed, Manifest, ObjectId, Op, Timestamp};
 use radicle::crypto::test::signer::MockSigner;
-use radicle::crypto::{PublicKey, Signature, Signer as _};
+use radicle::crypto::{PublicKey, Signature};
+use radicle_crypto::signature::Signer as _;
 use radicle::git::Oid;
 use radicle::identity::doc::Doc;
 use radicle::identity::RepoId;
@@ -197,7 +198,7 @@ fn build_fixture(n_del: usize, menu: Vec<u8>, max_revs: usize, stride: u64) -> F
         let oid = repo.backend.blob(&bytes).expect("write blob");
         assert_eq!(Oid::from(oid), d.blob);
     }
-    let initial = Identity::load(&repo).expect("Identity::load");
+    let initial = Identity::get(&ObjectId::from(root), &repo).expect("Identity::get");
     assert_eq!(initial.current, root);
     let rid = repo.id;
     let repo_path = repo_path(&storage, &rid);
